@@ -19,7 +19,7 @@ func TestC12Close(t *testing.T) {
 	dir := outDir(t)
 	ts := newTraceSet(dir, "c12")
 	thorough := os.Getenv("VERIF_TIER") == "thorough"
-	scenarios := []string{"transfer", "fullwindow", "idle", "lossy", "idleKeepalive"}
+	scenarios := []string{"transfer", "fullwindow", "idle", "lossy", "idleKeepalive", "backlog"}
 	whos := []string{"c", "s", "both", "twice", "many"}
 	nets := []string{"ok", "blackhole", "fail", "block"}
 	times := []int{0, 7, 60, 130, 520, 1010, 1700, 3100}
@@ -65,6 +65,12 @@ func TestC12Close(t *testing.T) {
 					switch sc {
 					case "fullwindow":
 						cfg.Msgs = [2]int{8, 0}
+					case "backlog":
+						// the server application never reads: its
+						// receive loop ends up holding a payload
+						// it cannot hand over
+						cfg.Msgs = [2]int{7, 0}
+						cfg.NoRecv = [2]bool{false, true}
 					case "idle":
 						cfg.Msgs = [2]int{0, 0}
 					case "idleKeepalive":
@@ -141,7 +147,13 @@ func TestC12Close(t *testing.T) {
 						r.Quiesce()
 						r.NoteBlocked("c")
 						r.NoteBlocked("s")
-						r.Rec.Emit("peerCheck", "ep", map[string]string{"c": "s", "s": "c"}[first])
+						peer := map[string]string{"c": "s", "s": "c"}[first]
+						// an application that never reads exerts
+						// back-pressure: its receive loop cannot get
+						// to the FIN, which is outside the property
+						if !(sc == "backlog" && peer == "s") {
+							r.Rec.Emit("peerCheck", "ep", peer)
+						}
 						for _, ep := range []string{"c", "s"} {
 							closer(ep, "z")
 						}
